@@ -684,6 +684,14 @@ def norm_bool(sym, value=True, named=False, maxdepth=12):
                     value = not value
                 s = a
                 continue
+        if s[0] == "phi" and isinstance(value, bool):
+            # `phi(false | e)` being true means `e` is true (the merged short-circuit form of `c && e`):
+            # when every other arm is the opposite constant, the test decides the one non-constant arm
+            arms = [strip(x) for x in s[1]]
+            rest = [x for x in arms if not (x[0] == "const" and isinstance(x[2], bool))]
+            if len(rest) == 1 and all(x[2] is (not value) for x in arms if x[0] == "const" and isinstance(x[2], bool)):
+                s = rest[0]
+                continue
         break
     op = None
     if s[0] == "bin" and s[1] in ("Lt", "Le", "Gt", "Ge", "Eq", "Ne"):
